@@ -29,6 +29,12 @@ def binners():
     return list(B.ALL)
 
 
+def relational():
+    from contracts import relational as R
+    return list(R.ALL)
+
+
+TQ = [("contracts.threequarters", "threequarters")]
 COVER = [("contracts.covering", "decreasing_subroutine"), ("contracts.covering", "cover_decreasing"), ("contracts.covering", "twothirds")]
 
 
